@@ -161,8 +161,14 @@ struct Exec {
         v.diag = std::move(diag);
         log("VIOLATION " + v.key() + " " + detail);
         res.v.push_back(std::move(v));
-        bool fatal = res.v.back().oracle == "structure" ||
-            res.v.back().oracle == "walk" || res.v.back().oracle == "catalog";
+        // going on after these could crash the worker: stop whatever the focus
+        // (a shared cell or a wrong word is safe to go on with: every real
+        // call is preceded by the bounds-checked walk of its own tuple)
+        bool fatal = false;
+        if (res.v.back().oracle == "catalog")
+            res.poisoned = true; // a corrupt catalog outlives this run
+        if (fatal)
+            res.poisoned = true;
         if (res.status == RS_OK)
             res.status = RS_VIOLATION;
         if (opts.stop_at_first &&
@@ -660,8 +666,11 @@ struct Exec {
                     if (!ins.second) {
                         d.set("other_slot", ins.first->second.first);
                         d.set("other_param", ins.first->second.second);
+                        // C08 states this too ("no two method parameters
+                        // ever share a v-table cell in a class")
                         return violate(
-                            "C04", "structure", "cell-shared",
+                            opts.focus == "C08" ? "C08" : "C04", "structure",
+                            "cell-shared",
                             "in class " + std::to_string(c) +
                                 " method slot " + std::to_string(m.slot) +
                                 " parameter " + std::to_string(i) +
@@ -2153,8 +2162,25 @@ struct Exec {
             res.final_live[s.name] = s.live;
         // leave the policies in their load-time state
         if (!leave_loaded)
-            for (auto& s : ps)
+            for (auto& s : ps) {
                 s.ops->reset();
+                // every registration object was destroyed: nothing may remain
+                std::string why = s.ops->pristine();
+                if (!why.empty()) {
+                    res.poisoned = true;
+                    bool was_stopped = stop;
+                    cur_event = -1;
+                    J d = J::obj();
+                    d.set("policy", s.name);
+                    d.set("what", why);
+                    violate(
+                        "C18", "catalog", "residue",
+                        "after every registration object of policy " + s.name +
+                            " was destroyed: " + why,
+                        d);
+                    stop = was_stopped;
+                }
+            }
         res.evhash = evh.h;
         res.signature = sig.h;
         res.nontrivial = res.st.mi_classes > 0 || res.st.multi_applicable > 0 ||
@@ -2258,6 +2284,7 @@ void merge(RunResult& into, RunResult&& v, const std::string& tag) {
             into.status = RS_VIOLATION;
     }
     into.nontrivial = into.nontrivial || v.nontrivial;
+    into.poisoned = into.poisoned || v.poisoned;
 }
 
 void diff_violation(
